@@ -124,6 +124,63 @@ program!(c19_hue_uniform, "C19", "quick", s,
     T::ensure("standard.hue_in_0_360", in_range(st.into_raw_degrees(), 0.0, 360.0));
 });
 
+
+program!(c19_hue_inclusive_equal_ends, "C19", "quick", s,
+    "Uniform{Rgb,..}Hue::{new_inclusive, sample} [hues.rs impl_uniform!], UniformHsv::new_inclusive (hue part)",
+    "inclusive range with EQUAL hue ends: the arc from a hue to itself is that single hue - the sample is congruent to it modulo 360 (not anywhere on the circle); also through a hue-carrying colour type",
+{
+    let mut rng = rnd::rng();
+    let h = T::var("h", -360.0, 720.0);
+    let u = Uniform::new_inclusive(RgbHue::<T>::from_degrees(h), RgbHue::<T>::from_degrees(h));
+    let s: RgbHue<T> = rng.sample(&u);
+    let q = (s.into_raw_degrees() - h) / T::k(360.0);
+    T::ensure("hue.sample_is_the_single_hue_mod_360", abs_le(palette::num::Round::round(q), q, T::tol(1e-9, 1e-6)));
+    let (s1, s2, v1, v2) = (T::var("s1", 0.0, 1.0), T::var("s2", 0.0, 1.0), T::var("v1", 0.0, 1.0), T::var("v2", 0.0, 1.0));
+    let uc = Uniform::new_inclusive(Hsv::<Srgb, T>::new(h, s1, v1), Hsv::<Srgb, T>::new(h, s2, v2));
+    let c: Hsv<Srgb, T> = rng.sample(&uc);
+    let q = (c.hue.into_raw_degrees() - h) / T::k(360.0);
+    T::ensure("hsv.sample_keeps_the_single_hue_mod_360", abs_le(palette::num::Round::round(q), q, T::tol(1e-9, 1e-6)));
+});
+
+// ---- every type with sampling support: standard sample within the documented bounds, uniform sample between the ends ----
+macro_rules! sampler {
+    ($name:ident, $ty:ty, $what:expr, $mac:expr, [$($f:ident : $lo:expr, $hi:expr),+], $ctor:expr $(, hue $hf:ident)?) => {
+        program!($name, "C19", "quick", s,
+            concat!("impl Distribution<", $what, "> for Standard, Uniform", $what, "::{new, new_inclusive, sample} [macros/random.rs ", $mac, " invocation for ", $what, "]"),
+            concat!($what, ": a standard sample has every component within the documented bounds; a uniform sample between two colours has every component between the corresponding components of the two ends (half-open and inclusive forms)"),
+        {
+            let mut rng = rnd::rng();
+            let c: $ty = rng.gen();
+            $( T::ensure(concat!("standard.in_bounds.", stringify!($f)), in_range(c.$f, $lo - 1e-9, $hi + 1e-9)); )+
+            $( T::ensure("standard.hue_in_0_360", in_range(c.$hf.into_raw_degrees(), 0.0, 360.0)); )?
+            $( let $f = (T::var(concat!(stringify!($f), "1"), $lo, $hi), T::var(concat!(stringify!($f), "2"), $lo, $hi)); )+
+            let mk = $ctor;
+            let (lo, hi): ($ty, $ty) = (mk(T::k(30.0), $($f.0),+), mk(T::k(90.0), $($f.1),+));
+            let u = Uniform::new(lo, hi);
+            let s: $ty = rng.sample(&u);
+            let tol = T::tol(1e-9, 1e-6);
+            $( T::ensure(concat!("uniform.between_ends.", stringify!($f)), T::p_and(T::p_le(&($f.0 - tol), &s.$f), T::p_le(&s.$f, &($f.1 + tol)))); )+
+            let ui = Uniform::new_inclusive(lo, hi);
+            let si: $ty = rng.sample(&ui);
+            $( T::ensure(concat!("uniform_inclusive.between_ends.", stringify!($f)), T::p_and(T::p_le(&($f.0 - tol), &si.$f), T::p_le(&si.$f, &($f.1 + tol)))); )+
+        });
+    };
+}
+sampler!(c19_s_xyz, palette::Xyz<D65, T>, "Xyz", "impl_rand_traits_cartesian!", [x: 0.0, 0.95047, y: 0.0, 1.0, z: 0.0, 1.08883], |_h: T, x, y, z| palette::Xyz::new(x, y, z));
+sampler!(c19_s_yxy, palette::Yxy<D65, T>, "Yxy", "impl_rand_traits_cartesian!", [x: 0.0, 1.0, y: 0.0, 1.0, luma: 0.0, 1.0], |_h: T, x, y, l| palette::Yxy::new(x, y, l));
+sampler!(c19_s_luv, palette::Luv<D65, T>, "Luv", "impl_rand_traits_cartesian!", [l: 0.0, 100.0, u: -84.0, 176.0, v: -135.0, 108.0], |_h: T, l, u, v| palette::Luv::new(l, u, v));
+sampler!(c19_s_oklab, palette::Oklab<T>, "Oklab", "impl_rand_traits_cartesian!", [l: 0.0, 1.0, a: -2.0, 2.0, b: -2.0, 2.0], |_h: T, l, a, b| palette::Oklab::new(l, a, b));
+sampler!(c19_s_luma, palette::luma::Luma<Srgb, T>, "Luma", "impl_rand_traits_cartesian!", [luma: 0.0, 1.0], |_h: T, l| palette::luma::Luma::new(l));
+sampler!(c19_s_lab, Lab<D65, T>, "Lab", "impl_rand_traits_cartesian!", [l: 0.0, 100.0, a: -128.0, 127.0, b: -128.0, 127.0], |_h: T, l, a, b| Lab::new(l, a, b));
+sampler!(c19_s_lch, palette::Lch<D65, T>, "Lch", "impl_rand_traits_cylinder!", [l: 0.0, 100.0, chroma: 0.0, 128.0], |h: T, l, c| palette::Lch::new(l, c, h), hue hue);
+sampler!(c19_s_lchuv, palette::Lchuv<D65, T>, "Lchuv", "impl_rand_traits_cylinder!", [l: 0.0, 100.0, chroma: 0.0, 180.0], |h: T, l, c| palette::Lchuv::new(l, c, h), hue hue);
+sampler!(c19_s_oklch, palette::Oklch<T>, "Oklch", "impl_rand_traits_cylinder!", [l: 0.0, 1.0, chroma: 0.0, 1.0], |h: T, l, c| palette::Oklch::new(l, c, h), hue hue);
+sampler!(c19_s_hsv, Hsv<Srgb, T>, "Hsv", "impl_rand_traits_hsv_cone!", [saturation: 0.0, 1.0, value: 0.0, 1.0], |h: T, s, v| Hsv::new(h, s, v), hue hue);
+sampler!(c19_s_okhsv, Okhsv<T>, "Okhsv", "impl_rand_traits_hsv_cone!", [saturation: 0.0, 1.0, value: 0.0, 1.0], |h: T, s, v| Okhsv::new(h, s, v), hue hue);
+sampler!(c19_s_hsl, Hsl<Srgb, T>, "Hsl", "impl_rand_traits_hsl_bicone!", [saturation: 0.0, 1.0, lightness: 0.0, 1.0], |h: T, s, l| Hsl::new(h, s, l), hue hue);
+sampler!(c19_s_okhsl, Okhsl<T>, "Okhsl", "impl_rand_traits_hsl_bicone!", [saturation: 0.0, 1.0, lightness: 0.0, 1.0], |h: T, s, l| Okhsl::new(h, s, l), hue hue);
+sampler!(c19_s_hsluv, palette::Hsluv<D65, T>, "Hsluv", "impl_rand_traits_hsl_bicone!", [saturation: 0.0, 100.0, l: 0.0, 100.0], |h: T, s, l| palette::Hsluv::new(h, s, l), hue hue);
+
 pub fn all() -> Vec<crate::Prog> {
-    vec![c19_standard_cartesian::prog(), c19_cone_hsv::prog(), c19_cone_okhsv::prog(), c19_bicone_hsl::prog(), c19_uniform_hwb::prog(), c19_uniform_okhwb::prog(), c19_hue_uniform::prog()]
+    vec![c19_standard_cartesian::prog(), c19_cone_hsv::prog(), c19_cone_okhsv::prog(), c19_bicone_hsl::prog(), c19_uniform_hwb::prog(), c19_uniform_okhwb::prog(), c19_hue_uniform::prog(), c19_hue_inclusive_equal_ends::prog(), c19_s_xyz::prog(), c19_s_yxy::prog(), c19_s_luv::prog(), c19_s_oklab::prog(), c19_s_luma::prog(), c19_s_lab::prog(), c19_s_lch::prog(), c19_s_lchuv::prog(), c19_s_oklch::prog(), c19_s_hsv::prog(), c19_s_okhsv::prog(), c19_s_hsl::prog(), c19_s_okhsl::prog(), c19_s_hsluv::prog()]
 }
